@@ -85,6 +85,9 @@ func init() {
 
 func runC15(c *CaseCtx) (res CaseResult) {
 	r := caseRand(c.Seed, "C15", c.Idx)
+	if c.Idx%40 == 7 {
+		return runC15TypedNil(c, r)
+	}
 	det := map[string]interface{}{}
 	defer func() {
 		if p := recover(); p != nil {
